@@ -911,23 +911,115 @@ func c15Whole(c *Ctx) {
 		skips[Desc(cl.Call.Args[0])] = true
 	}
 	c.Check(len(callers) >= 2 && len(skips) == 1, "R15.5", cp.String(), "same-skip-on-regrow", cp.Pos(), "every runtime.Callers call in Capture (initial and re-capture) uses the same skip expression (%v)", keys(skips))
-	// growth loop: continues while numFrames == len(pcs), doubles
-	okLoop, okDouble := false, false
-	for _, b := range cp.Blocks {
-		if LoopHeader(b) != b {
-			continue
+	// growth loop, by path exploration with depth fixed to Full (up to two re-captures): the loop is left - and the
+	// frames handed on - only after a capture that did NOT fill its buffer (a full buffer may have been truncated)
+	fullV, okFull := c.ConstVal("go.uber.org/zap/internal/stacktrace", "Full")
+	if c.Anchor("R15.5", "stacktrace.Full / Capture(skip, depth)", okFull && len(cp.Params) == 2) {
+		resolve := func(st *ConcState, v ssa.Value) ssa.Value {
+			for k := 0; k < 12; k++ {
+				nx := st.Step(v)
+				if nx == nil {
+					break
+				}
+				v = nx
+			}
+			return v
 		}
-		if iff, ok := b.Instrs[len(b.Instrs)-1].(*ssa.If); ok {
-			d := Desc(iff.Cond)
-			okLoop = d == "(φnumFrames == len(φpcs))" && inLoop(b.Succs[0], b)
+		isCallers := func(st *ConcState, v ssa.Value) bool {
+			cl, ok := resolve(st, v).(*ssa.Call)
+			return ok && IsCallTo(cl, "runtime.Callers")
 		}
+		cut := 0
+		seqs, trunc := ConcPaths(cp, ConcCfg{
+			MaxIter: 2, Cut: &cut,
+			Init: func(st *ConcState) { st.SetInt(cp.Params[1], fullV) },
+			Event: func(in ssa.Instruction, st *ConcState) string {
+				switch x := in.(type) {
+				case *ssa.Call:
+					if IsCallTo(x, "runtime.Callers") {
+						return "capture"
+					}
+					if IsCallTo(x, "runtime.CallersFrames") {
+						return "use"
+					}
+				case *ssa.Return:
+					return "ret"
+				}
+				return ""
+			},
+			Branch: func(cond ssa.Value, taken bool, st *ConcState) string {
+				pol := taken
+				for k := 0; k < 8; k++ {
+					if u, ok := cond.(*ssa.UnOp); ok && u.Op == token.NOT {
+						cond, pol = u.X, !pol
+						continue
+					}
+					if nx := st.Step(cond); nx != nil {
+						cond = nx
+						continue
+					}
+					break
+				}
+				bo, ok := cond.(*ssa.BinOp)
+				if !ok {
+					return ""
+				}
+				x, y, op := bo.X, bo.Y, bo.Op
+				if isCallers(st, y) {
+					x, y, op = y, x, swapOp(op)
+				}
+				if !isCallers(st, x) {
+					return ""
+				}
+				lc, isLen := resolve(st, y).(*ssa.Call)
+				if !isLen || CallBuiltin(lc) != "len" {
+					return ""
+				}
+				// frames captured compared with the room there was
+				switch op {
+				case token.EQL, token.GEQ:
+					if pol {
+						return "full"
+					}
+					return "not-full"
+				case token.NEQ, token.LSS:
+					if pol {
+						return "not-full"
+					}
+					return "full"
+				}
+				return ""
+			},
+		})
+		var bad []string
+		nGrow := 0
+		for _, sq := range seqs {
+			toks := strings.Split(sq, " ; ")
+			last := ""
+			captures := 0
+			viol := false
+			for _, t := range toks {
+				switch t {
+				case "capture":
+					captures++
+					last = "capture"
+				case "full", "not-full":
+					last = t
+				case "use":
+					if last != "not-full" {
+						viol = true
+					}
+				}
+			}
+			if captures >= 2 {
+				nGrow++
+			}
+			if viol {
+				bad = append(bad, sq)
+			}
+		}
+		c.Check(!trunc && len(seqs) > 0 && nGrow > 0 && len(bad) == 0, "R15.5", cp.String(), "grows-until-not-full", cp.Pos(), "with depth = Full, on every path (%d explored, up to two re-captures; %d longer ones cut) the frames are handed on only after a capture that came back with room to spare; a full buffer is always re-captured into a bigger one (offending: %v)", len(seqs), cut, bad)
 	}
-	AllInstrs(cp, func(i ssa.Instruction) {
-		if mk, ok := i.(*ssa.MakeSlice); ok && Desc(mk.Len) == "(len(φpcs) * 2)" {
-			okDouble = true
-		}
-	})
-	c.Check(okLoop && okDouble, "R15.5", cp.String(), "grows-until-not-full", cp.Pos(), "the buffer is doubled and the stack re-captured as long as it came back full (a full buffer may be truncated)")
 	// pcs cut to the number of frames captured, on every path
 	var cuts []ssa.Instruction
 	InstrsDeep(cp, func(i ssa.Instruction) {
